@@ -159,6 +159,13 @@ class Categorize(Factory, Container):
         out._emptyBinsName = self._binsName()
         return out
 
+    def _binKey(self, q):
+        """The key under which category ``q`` is booked. JSON writes a bool category under its name, so after a merge
+        with a reloaded Categorize the category ``True`` may already exist as ``"True"``."""
+        if q not in self.bins and not isinstance(q, basestring) and str(q) in self.bins:
+            return str(q)
+        return q
+
     def _adoptBin(self, theirs):
         """A bin that only the other side of a merge has: booked from this side's template, like a bin created by
         ``fill``, so that it carries this side's sub-quantities and can still be filled."""
@@ -179,14 +186,15 @@ class Categorize(Factory, Container):
             out.entries = self.entries + other.entries
             out.contentType = self.contentType
             out._emptyBinsName = self._binsName()
+            # JSON writes a bool category under its name, so a reloaded operand has "True" where a live one has True:
+            # categories are matched by name
+            theirs = {str(k): (k, v) for k, v in other.bins.items()}
             out.bins = {}
-            for k in self.keySet.union(other.keySet):
-                if k in self.bins and k in other.bins:
-                    out.bins[k] = self.bins[k] + other.bins[k]
-                elif k in self.bins:
-                    out.bins[k] = self.bins[k].copy()
-                else:
-                    out.bins[k] = self._adoptBin(other.bins[k])
+            for k, v in self.bins.items():
+                match = theirs.pop(str(k), None)
+                out.bins[k] = v.copy() if match is None else v + match[1]
+            for k, v in theirs.values():
+                out.bins[k] = self._adoptBin(v)
             return out.specialize()
 
         raise ContainerException(f"cannot add {self.name} and {other.name}")
@@ -199,11 +207,12 @@ class Categorize(Factory, Container):
                     f"cannot add Categorizes because content type differs ({self.contentType} vs {other.contentType})"
                 )
             self.entries += other.entries
-            for k in self.keySet.union(other.keySet):
-                if k in self.bins and k in other.bins:
-                    self.bins[k] += other.bins[k]
-                elif k not in self.bins and k in other.bins:
-                    self.bins[k] = self._adoptBin(other.bins[k])
+            mine = {str(k): k for k in self.bins}  # categories are matched by name (see __add__)
+            for k, v in list(other.bins.items()):
+                if str(k) in mine:
+                    self.bins[mine[str(k)]] += v
+                else:
+                    self.bins[k] = self._adoptBin(v)
             return self
         raise ContainerException(f"cannot add {self.name} and {other.name}")
 
@@ -233,6 +242,7 @@ class Categorize(Factory, Container):
                 q = "NaN"
             if not isinstance(q, (basestring, bool)):
                 raise TypeError(f"function return value ({q}) must be a string or bool")
+            q = self._binKey(q)
 
             if q in self.bins:
                 self.bins[q].fill(datum, weight)
@@ -277,6 +287,7 @@ class Categorize(Factory, Container):
                     pass
                 elif xval is None or np.isnan(xval):
                     xval = "NaN"
+                xval = self._binKey(xval)
                 if xval not in self.bins:
                     self.bins[xval] = self.value.zero()
                 self.bins[xval]._numpy(None, c, [None])
@@ -292,6 +303,7 @@ class Categorize(Factory, Container):
                     pass
                 elif xval is None or np.isnan(xval):
                     xval = "NaN"
+                xval = self._binKey(xval)
                 if xval not in self.bins:
                     self.bins[xval] = self.value.zero()
 
